@@ -161,7 +161,7 @@ func oracleC01(w *World, c *Case) {
 // twin makes a hello that must have the same JA4: permuted ciphers and
 // extensions, GREASE inserted / altered.
 func twinHello(t *rapid.T, h *HelloPlan) *HelloPlan {
-	n := &HelloPlan{VersMin: h.VersMin, VersMax: h.VersMax, NoExtensions: h.NoExtensions, Compression: h.Compression}
+	n := &HelloPlan{VersMin: h.VersMin, VersMax: h.VersMax, LegacyVers: h.LegacyVers, NoExtensions: h.NoExtensions, Compression: h.Compression}
 	n.Ciphers = append([]uint16(nil), h.Ciphers...)
 	shuffle(t, "tw_c", n.Ciphers)
 	for i, c := range n.Ciphers {
@@ -238,6 +238,19 @@ func drawC02(t *rapid.T) *Case {
 		tw.ID = id
 		tw.Addr = drawAddr(t, id)
 		tw.Hello = twinHello(t, cps[i].Hello)
+		versTwin := false
+		if h := cps[i].Hello; !h.NoExtensions && h.VersMax == 0x0303 && !hasExt(h, "versions") && drawBool(t, "verstwin", 40) {
+			// not an equal twin but a near one: the same hello, octet for octet, with another
+			// legacy_version - it must NOT get its sibling's value (judged against the
+			// reference like everybody, never compared with the sibling)
+			cp := *h
+			cp.LegacyVers = []uint16{0x0304, 0x0305, 0x0303}[rapid.IntRange(0, 2).Draw(t, "verstwinv")]
+			if cp.LegacyVers == h.LegacyVers || (cp.LegacyVers == 0x0303 && h.LegacyVers == 0) {
+				cp.LegacyVers = 0x03fe
+			}
+			tw.Hello = &cp
+			versTwin = true
+		}
 		tw.Steps = nil
 		m := &ClientMeta{Proto: metas[i].Proto, Preamble: metas[i].Preamble}
 		// same script, fresh tags
@@ -258,7 +271,9 @@ func drawC02(t *rapid.T) *Case {
 		tw.Steps = append(tw.Steps, Step{Kind: "close"})
 		cps = append(cps, &tw)
 		metas = append(metas, m)
-		aux.Twin[id] = i
+		if !versTwin {
+			aux.Twin[id] = i
+		}
 	}
 	p.Clients = cps
 	if drawBool(t, "timedout", 10) {
@@ -754,4 +769,13 @@ func lastLogLine(w *World, sub string) string {
 		}
 	}
 	return ""
+}
+
+func hasExt(h *HelloPlan, kind string) bool {
+	for _, e := range h.Exts {
+		if e.Kind == kind {
+			return true
+		}
+	}
+	return false
 }
